@@ -39,6 +39,7 @@ def c05(tier, seed):
 
 
 ENGINES = {
+    "collect": ({"C07"}, "collecting forms vs scripted sources (poll/hint logs)"),
     "history": ({"C03"}, "random chained ownership histories over a typed pool vs shadow Vec model + ledger"),
     "seqops": ({"C09"}, "Lengthen/Shorten/Split/Concat/Remove vs Vec, exhaustive N<=8 + boundary shapes"),
     "iterq": ({"C06"}, "by-value iterator vs VecDeque / native-array twins: exhaustive one-step + random sequences"),
@@ -95,7 +96,42 @@ def c03(tier, seed):
     ]
 
 
+def c07(tier, seed):
+    if tier == "quick":
+        return [
+            Run("collect", "debug", ["--flavours", "Tok,u32,ZTok"], shards=4),
+            Run("collect", "miri", ["--flavours", "HeapTok", "--maxn", "2"], shards=16, label="collect/miri(N<=2)"),
+        ]
+    return [
+        Run("collect", "debug", ["--flavours", "Tok,u32,ZTok"], shards=8),
+        Run("collect", "release", ["--flavours", "Tok,u32,ZTok"], shards=8),
+        Run("collect", "miri", ["--flavours", "HeapTok,ZTok", "--maxn", "4"], shards=32, label="collect/miri(N<=4)"),
+        Run("collect", "memcheck", ["--flavours", "HeapTok,u32", "--maxn", "4"], shards=16),
+        Run("collect", "asan", ["--flavours", "HeapTok"], shards=8),
+    ]
+
+
 SPECS = {
+    "C07": dict(
+        engine="collect",
+        technique="scripted-source monitor: recording iterators (poll log, hint log) over the grid N x count x hint policy x fused x panic index; oracle from what the script delivered; ledger for pulled items",
+        level="exploration",
+        level_text=("For every N in 0..=8 (16, 17, 33 in thorough), every delivered count 0..=N+3, fourteen size-hint policies (exact, absent, loose, "
+                    "lying high/low in either bound, and fixed pairs around N), fused and non-fused sources, the four collecting forms and a "
+                    "panic at every reachable call index, the recorded poll log decides: Ok only for exactly N items with element i = item i, Ok "
+                    "whenever exactly N and the hint is truthful, Err when the hint rules N out, at most N+1 polls, no poll after None, "
+                    "from_iter panics with the 'expected N items' message exactly when the fallible form errs; the ledger decides that every "
+                    "pulled item is dropped exactly once."),
+        level_note="Trusted: ScriptIter's own log (harness/src/script.rs), the ledger. The grid is exhaustive over the script parameters for the listed N.",
+        runs=c07,
+        min_cases=20000,
+        must_count=["polls_cells", "ledger.drops"],
+        exhaustive={"quick": True, "thorough": True},
+        rule=("one case = (form, flavour, N, delivered count c, hint policy, fused?, panic index); the whole grid is enumerated; "
+              "non-trivial = the source delivers at least one item"),
+        explanation="oracle is a function of the script's recorded behaviour (polls, hints asked, items yielded), not of the crate's arithmetic",
+        assumptions=["N in 0..=8 (plus 16, 17, 33 in the thorough tier)"],
+    ),
     "C03": dict(
         engine="history",
         technique="random chained ownership histories against a shadow Vec model + ownership-ledger monitor; Miri/ASan on heap-payload elements",
